@@ -8,8 +8,10 @@ def check():
     return solvercheck.run(
         "C07", "C07.v" if os.path.exists(os.path.join(solvercheck.common.COQ, "props", "C07.v")) else None,
         [dict(builder=orders.builder, n_quick=1, n_thorough=1, group_oracle=orders.group_oracle_factory("dense"),
+              nontrivial=lambda r: r.get("status") == "Success" and any(k == "ok" for (_, k, _) in r.get("sol", []))),
+         dict(builder=orders.rk4_tail_builder, n_quick=1, n_thorough=1, group_oracle=orders.rk4_tail_group_oracle,
               nontrivial=lambda r: r.get("status") == "Success" and any(k == "ok" for (_, k, _) in r.get("sol", [])))],
         [oracles.oracle_shapes], TB,
         "single steps of size h0/2^k (k=0..3) from exact data on closed-form, explicitly time-dependent problems, both signs of h, "
-        "methods RK4/RK23/DOPRI5/DOP853/Radau; sup error of sol(x0+theta h), theta in {.1,...,.9}, fitted slope must be >= q+1-1.3; "
+        "methods RK4/RK23/DOPRI5/DOP853/Radau; sup error of sol(x0+theta h), theta in {.1,...,.9}, fitted slope must be >= q+1-1.3; RK4 also with two full steps and a shortened last one (interior of the last step ~ h^4); "
         "every run replayed bit-for-bit on the model (which includes the dense coefficients)")
